@@ -33,6 +33,11 @@ func (C03Mon) After(w *core.World, st *core.Step) {
 	if st.Kind != "goit" || !st.Post.HasGoit() {
 		return
 	}
+	if _, hasHead := st.Post.GoitFiles()["HEAD"]; !hasHead && w.SB.RealRoot != "" {
+		// a long location in which `init` itself failed half-way ("file name too long"): there is no repository to
+		// check (an interrupted init is C15's and C16's subject)
+		return
+	}
 	seen, _ := w.Shadow["c03seen"].(map[string]bool)
 	if seen == nil {
 		seen = map[string]bool{}
@@ -85,7 +90,7 @@ func hostileWeights() map[string]int {
 func runC03(c *core.Ctx) {
 	n := c.Pick(600, 5000)
 	steps := c.Pick(30, 40)
-	c.RunHistories(n, Registry["C03"].Mons, func(w *core.World) {
+	drive := func(w *core.World) {
 		k := NewWalker(w, gen.NameOpts{Space: true, Meta: w.Hist%2 == 0, NonASCII: w.Hist%3 == 0, MaxDepth: 3, N: 6}, hostileWeights())
 		k.Hostile = 25
 		k.Escape = true
@@ -152,6 +157,12 @@ func runC03(c *core.Ctx) {
 				w.GoitIn(".goit", "rm", p)
 			}
 		}
+	}
+	c.RunHistories(n, Registry["C03"].Mons, drive)
+	// the same walks in working trees whose absolute path is 4030..4095 bytes long (see core.DeepLen)
+	c.RunHistoriesAt(core.DeepBase, c.Pick(66, 660), Registry["C03"].Mons, func(w *core.World) {
+		c.Count("C03.long-location-histories")
+		drive(w)
 	})
 }
 
@@ -188,7 +199,9 @@ func (C18Mon) After(w *core.World, st *core.Step) {
 	} else if st.Res.TimedOut {
 		c.Inconclusive("wall-clock watchdog fired for " + st.String())
 	}
-	if why, inv := st.Intent["invalid"]; inv && st.Exit != 0 {
+	// (not in a long location, where a command may fail half-way with "file name too long": that is an I/O failure,
+	// C16's subject, not a refusal)
+	if why, inv := st.Intent["invalid"]; inv && st.Exit != 0 && w.SB.RealRoot == "" {
 		c.Oracle("C18.refused-changed")
 		if same, d := sameSandbox(st.Pre, st.Post); !same {
 			w.Fail("C18.refused-changed", "state-changed", st.Cmd()+":"+why, "%s was constructed as invalid (%s), was refused, but changed %v", st.String(), why, firstN(d, 6))
@@ -290,7 +303,7 @@ func garbage(k *Walker) {
 func runC18(c *core.Ctx) {
 	n := c.Pick(640, 5000)
 	steps := c.Pick(40, 50)
-	c.RunHistories(n, Registry["C18"].Mons, func(w *core.World) {
+	drive := func(w *core.World) {
 		wts := hostileWeights()
 		wts["hash-object"] = 1
 		k := NewWalker(w, gen.NameOpts{Space: true, Meta: true, NonASCII: w.Hist%2 == 0, MaxDepth: 3, N: 6}, wts)
@@ -416,6 +429,12 @@ func runC18(c *core.Ctx) {
 				c.Class(fmt.Sprintf("%s|%s|n%d|%s|%s", st.Cmd(), fl, min(len(p.Pos), 3), st.Intent["invalid"], stateClass(r != nil && st.Pre.HasGoit(), len(r.Branches), r.IndexPresent, len(r.LogHEAD))))
 			}
 		}
+	}
+	c.RunHistories(n, Registry["C18"].Mons, drive)
+	// the same walks in working trees whose absolute path is 4030..4095 bytes long (see core.DeepLen)
+	c.RunHistoriesAt(core.DeepBase, c.Pick(66, 660), Registry["C18"].Mons, func(w *core.World) {
+		c.Count("C18.long-location-histories")
+		drive(w)
 	})
 }
 
